@@ -47,8 +47,9 @@ RULE = (
     "non-overlapping keys in drawn order: files, explicit/implicit directories, keys missing on one or both "
     "sides} (reference = the same table restricted to keys at or below a root, independent of root "
     "order; not in the storage arm). A storage arm attaches a cache "
-    "ObjectStorage (HashFileDB on scratch) to both indexes and turns 1-3 non-root directories into "
-    "unloaded .dir entries: loadable (listing object written as reference bytes, files below it come "
+    "ObjectStorage (HashFileDB on scratch) to both indexes (in-memory, or for a quarter of the cases both on "
+    "the SQLite trie) and turns 1-3 directories - sometimes the root key () itself - into "
+    "unloaded .dir entries: loadable (also with an empty listing), i.e. (listing object written as reference bytes, files below it come "
     "from the loader) or un-enumerable (object absent), with siblings around them, with_unknown mostly "
     "on. An SQLite arm builds one or both sides as DataIndex.open(<file>) and reaches the spec's content "
     "through a drawn edit history in one session (sets, overwrites, explicit directory entries written "
@@ -76,7 +77,7 @@ ASSUMPTIONS = [
     "outside the storage arm no storage is attached (nothing is lazily loaded; with_unknown cannot fire)",
     "storage arm: explicit directory entries are marked loaded=True (what the loader leaves behind; an "
     "unloaded directory entry without a loadable object is by construction un-enumerable), unloaded "
-    "entries are never nested and never the root key; keys below a loadable entry are expected in the "
+    "entries are never nested (they may sit at the root key () and may list no file); keys below a loadable entry are expected in the "
     "form the loader produces (Meta(md5=oid) + md5 hash, explicit hash-less intermediate directories)",
     "an entry with a hash and no meta is read as Meta() (what info()/ls() hand to the diff)",
     "shallow: the diff does not list below an entry that carries a hash; what happens to keys inside such "
@@ -227,9 +228,13 @@ MUTATIONS_STORE = ["rehash", "uval", "add", "unlazy", "lazy", "unenum", "remeta"
 
 
 def _mark(draw, root, lz):
-    """Turn a non-root directory into an unloaded .dir entry (loadable or not); if there is none, add one."""
+    """Turn a directory into an unloaded .dir entry (loadable or not): mostly a non-root directory (a new,
+    possibly empty one if there is none), sometimes the root key () itself."""
     cands = [p for p in _paths(root, "d") if p]
-    if cands and draw(_i4) != 3:
+    where = draw(_i6)
+    if where == 5:
+        node = root
+    elif cands and where != 4:
         node = _get(root, _pick(draw, cands))
     else:
         node = _dir(draw, 3, _hashes)
@@ -347,10 +352,10 @@ def _flatten(root, storage=False):
             if not _has_files(node):
                 return
             out.append([list(key), {"isdir": True}, None, True])
-        elif storage and key and node["lz"] == "U":
+        elif storage and node["lz"] == "U":
             out.append([list(key), {"isdir": True, **node["e"]}, ["U", node["uv"]], True])
             return
-        elif storage and key and node["lz"] == "L" and _has_files(node):
+        elif storage and node["lz"] == "L":   # also with no file below it: an empty listing object
             out.append([list(key), {"isdir": True, **node["e"]}, "L", True])
             in_lazy = True
         elif node["x"]:
@@ -513,6 +518,7 @@ def cases(draw, mode=None, renames=None, storage=False, sqlite=False):
         opts["with_unknown"] = not draw(_i4) == 3
         opts["shallow"] = draw(_i6) == 5
         case["storage"] = True
+        case["storage_sqlite"] = draw(_i4) == 3   # both indexes on the SQLite trie
     return case
 
 
@@ -578,7 +584,7 @@ def check_spec(spec, storage=False):
         if not _lazy_kind(e[2]):
             continue
         k = tuple(e[0])
-        if not storage or not e[3] or not k:
+        if not storage or not e[3]:
             raise HarnessError(f"malformed index spec (unloaded directory entry {e})")
         below = [x for x in spec if len(x[0]) > len(k) and tuple(x[0][:len(k)]) == k]
         if _lazy_kind(e[2]) == "U" and below:
@@ -592,8 +598,8 @@ def check_spec(spec, storage=False):
                 [list(x[0][:i]), {"isdir": True}, None, True] not in spec for i in range(len(k) + 1, len(x[0]))
             ):
                 raise HarnessError(f"malformed index spec (implicit directory above {x} below the lazy {k})")
-        if _lazy_kind(e[2]) == "L" and not any(not x[3] for x in below):
-            raise HarnessError(f"malformed index spec (lazy {k} lists no file)")
+        if any(_lazy_kind(x[2]) for x in below):
+            raise HarnessError(f"malformed index spec (unloaded entry below the unloaded {k})")
 
 
 def derived_hash(spec, dkey):
@@ -714,7 +720,7 @@ def ref_renames(table, ov, nv):
 # ------------------------------------------------------------------------------------------------
 # running the real thing
 # ------------------------------------------------------------------------------------------------
-def build_index(spec, odb=None):
+def build_index(spec, odb=None, sqpath=None, handles=None):
     """odb: storage arm - the index gets a cache ObjectStorage at (); explicit directory entries are
     marked loaded (the form the loader itself leaves behind), "L"/"U" entries are unloaded .dir entries;
     the listing object of an "L" entry is written into the store as reference bytes, the keys below it
@@ -725,7 +731,11 @@ def build_index(spec, odb=None):
 
     if spec is None:
         return None
-    idx = DataIndex()
+    if sqpath is None:
+        idx = DataIndex()
+    else:   # storage arm on the SQLite trie: same content, written directly (no edit history)
+        idx = DataIndex.open(sqpath)
+        handles.append(idx)
     lazy = [tuple(e[0]) for e in spec if _lazy_kind(e[2]) == "L"]
     for key, meta, h, isdir in spec:
         key = tuple(key)
@@ -1004,8 +1014,15 @@ def run_case(case, ctx):
 
     from dvc_data.hashfile.db import HashFileDB
 
+    handles = []
     with ctx.tmpdir() as d:
-        return _run(case, HashFileDB(LocalFileSystem(), os.path.join(d, "odb")))
+        try:
+            return _run(case, HashFileDB(LocalFileSystem(), os.path.join(d, "odb")),
+                        d if case.get("storage_sqlite") else None, handles)
+        finally:
+            for h in handles:
+                with contextlib.suppress(Exception):
+                    h.close()
 
 
 def _run(case, odb, sqdir=None, handles=None):  # noqa: C901, PLR0912, PLR0915
@@ -1045,7 +1062,8 @@ def _run(case, odb, sqdir=None, handles=None):  # noqa: C901, PLR0912, PLR0915
             built[side] = build_sqlite(case[side], sq[side], os.path.join(sqdir, side + ".db"))
             handles.append(built[side])
         else:
-            built[side] = build_index(case[side], odb)
+            stsq = os.path.join(sqdir, side + ".db") if odb is not None and sqdir else None
+            built[side] = build_index(case[side], odb, stsq, handles)
     old, new = built["old"], built["new"]
     viols = []
     counters = {}
@@ -1073,7 +1091,8 @@ def _run(case, odb, sqdir=None, handles=None):  # noqa: C901, PLR0912, PLR0915
     for name, idx, spec, vw, fullv in (("old", old, case["old"], pv_o, ov), ("new", new, case["new"], pv_n, nv)):
         if idx is None:
             continue
-        for other in (idx, build_index(spec, odb)):
+        copy_path = os.path.join(sqdir, name + "-copy.db") if odb is not None and sqdir else None
+        for other in (idx, build_index(spec, odb, copy_path, handles)):
             splain, sren, sbad = flat(real_diff(idx, other, opts))
             changed = [x for x in splain if x[0] != UNCHANGED]
             if changed or sren or sbad:
@@ -1196,9 +1215,18 @@ def _run(case, odb, sqdir=None, handles=None):  # noqa: C901, PLR0912, PLR0915
                 classes.append("sqlite:uncommitted-tail")
     if odb is not None:
         classes.append("storage")
+        if sqdir:
+            classes.append("storage:sqlite-backend")
         lz = {(k, e["lz"]) for f in (fo, fn) if f for k, e in f.items() if e.get("lz")}
         if any(z == "L" for _, z in lz):
             classes.append("storage:loadable-dir")
+        if any(k == () for k, _ in lz):
+            classes.append("storage:unloaded-root:" + "+".join(sorted({z for k, z in lz if k == ()})))
+        for f in (fo, fn):
+            if f and any(e.get("lz") == "L" and not any(len(x) > len(k) and x[:len(k)] == k for x in f)
+                         for k, e in f.items()):
+                classes.append("storage:empty-loadable-dir")
+                break
         us = {k for k, z in lz if z == "U"}
         if us:
             classes.append("storage:unenumerable-dir")
